@@ -39,14 +39,80 @@ Plan generate(const std::string& prop, int tier, uint64_t batchSeed, uint64_t id
         return genTecmp(prop, tier, batchSeed, idx);
     if (prop == "C16")
         return genStatus(prop, tier, batchSeed, idx);
-    if (prop == "C19" || prop == "C20")
+    if (prop == "C20")
     {
-        // workloads of the other generators, executed under the thread scheduler / hostile memory
+        // workloads of the other generators, executed under hostile fresh memory
         static const char* mix[] = {"C01", "C05", "C13", "C15", "C16", "C06", "C04", "C10"};
         Plan p = generate(mix[idx % 8], tier, batchSeed ^ 0xC19C20, idx);
         p.prop = prop;
         p.seed = batchSeed;
         p.idx = static_cast<int64_t>(idx);
+        return p;
+    }
+    if (prop == "C19")
+    {
+        // 2-4 thread workloads taken from the other generators (cut to a few operations: the library runs
+        // unoptimised and instrumented here) + the scheduler configuration
+        static const int mixn[] = {1, 5, 13, 15, 16, 6, 4, 10, 18, 17};
+        Rng r(runSeed(batchSeed, prop, idx), "c19");
+        Plan p;
+        p.prop = prop;
+        p.seed = batchSeed;
+        p.idx = static_cast<int64_t>(idx);
+        const int n = static_cast<int>(2 + r.below(3));
+        Item cfg("cfg");
+        cfg.set("nthreads", n).set("schedseed", static_cast<int64_t>(r.next() >> 1));
+        cfg.set("mean", r.pick<int64_t>({1, 2, 5, 20, 100, 1000, 10000}));
+        cfg.set("mode", r.chance(1, 4) ? 1 : 0).set("points", static_cast<int64_t>(1 + r.below(6)));
+        p.items.push_back(cfg);
+        const bool sameWorkload = r.chance(1, 3);  // identical workloads on all threads: every access has a twin
+        const int shared = mixn[r.below(10)];
+        const uint64_t sharedIdx = r.next() % 1000000;
+        for (int t = 0; t < n; ++t)
+        {
+            const int pn = sameWorkload ? shared : mixn[r.below(10)];
+            char name[8];
+            snprintf(name, sizeof name, "C%02d", pn);
+            Plan sub = generate(name, 0, batchSeed ^ 0xC19, sameWorkload ? sharedIdx : r.next() % 1000000);
+            const size_t maxOps = tier ? 8 : 5;
+            size_t ops = 0;
+            bool hasCfg = false;
+            for (auto& it : sub.items)
+            {
+                if (it.tag == "op")
+                {
+                    if (ops >= maxOps)
+                        continue;
+                    ++ops;
+                    // keep single operations small
+                    if (it.sub.size() > 6)
+                        it.sub.resize(6);
+                    for (auto& m : it.sub)
+                    {
+                        if (m.has("len") && m.get("len") > 600)
+                            m.set("len", 100 + m.get("len") % 500);
+                        if (m.has("rep"))
+                            m.set("rep", 3);
+                    }
+                    if (it.has("n") && it.get("n") > 600)
+                        it.set("n", it.get("n") % 600);
+                }
+                Item c = it;
+                c.set("th", t);
+                if (c.tag == "cfg")
+                {
+                    c.set("propn", pn);
+                    hasCfg = true;
+                }
+                p.items.push_back(std::move(c));
+            }
+            if (!hasCfg)
+            {
+                Item c("cfg");
+                c.set("th", t).set("propn", pn);
+                p.items.push_back(c);
+            }
+        }
         return p;
     }
     Plan p;
